@@ -205,10 +205,10 @@ def run(pid, tier, seed, replay):
                     log("NOTE model-drift property=%s cache protocol: trace %s has no accepting behaviour of spec/Cache.tla; batch %s" % (pid, cid, formulas))
                 extra["cache_protocol"] = {"module": "spec/Trace_Cache.tla over spec/Cache.tla", "traces": ch["traces"], "accepted": ch["accepted"],
                                            "hit_miss_save_events": ch["protocol_events"], "drift": [d[0] for d in ch["drift"][:10]],
-                                           "note": "hook events consumed by the actions Hit / Miss / Save; invariants of the protocol evaluated in every state; rejection is model drift (NOTE)"}
+                                           "note": "hook events consumed by the actions Hit / Miss / Save / Shortcut / Open / Close; the logged answer of the save rule must equal SaveRule of the model; invariants of the protocol evaluated in every state; rejection is model drift (NOTE)"}
                 ma_c = common.mode_a("MC_Cache.tla", "MC_Cache.cfg", wd, workers=4)
                 extra["mode_A_cache"] = {"module": "spec/MC_Cache.tla", "states": ma_c[1], "transitions": ma_c[0],
-                                         "invariants": "CacheWithinMarked, CountersPositive, FetchBound, WildKept, CachedWasSaved, StackDistinct; every schedule of visits over 3 keys + a wild-card"}
+                                         "invariants": "CacheWithinMarked, CountersPositive, FetchBound, WildKept, CachedWasSaved, StackDistinct, StoredValuesPortable; every schedule of visits and of quantifier scopes over 3 keys + a wild-card"}
                 extra.setdefault("mode_A_evaluator", {})
                 extra["_add_states"] = (st["distinct"] + ma_c[1], st["states"] + ma_c[0])
             if pid in PRIMITIVES:
